@@ -310,8 +310,11 @@ class C04(Prop):
         items = stream_items(tier, seed, ['c01', 'c02', 'emit', 'rec', 'deco', 'ctx', 'ek'])
         rng = random.Random(seed)
         if tier == 'quick':
-            rng.shuffle(items)
-            items = items[:6000]
+            prio = [it for it in items if it[2].get('prio')]
+            rest = [it for it in items if not it[2].get('prio')]
+            rng.shuffle(rest)
+            rng.shuffle(prio)
+            items = prio[:3000] + rest[:5000]
         for n, (g, inputs, kw) in enumerate(items):
             kw = dict(kw)
             kw.pop('prio', None)
@@ -329,6 +332,16 @@ class C04(Prop):
                 pairs.append((('delim', a, b, ('just', [gen.B])), ('theni', ('ithen', b, a), ('just', [gen.B]))))
             pairs.append((('ignored', a), ('to', ('vunit',), a)))
             pairs.append((('iterp', ('rep', a, 1, 3)), ('collect', 'unit', ('rep', a, 1, 3))))
+        # an iterable parser used directly as a parser == collected into (): also when an abandoned iteration has emitted
+        rest = ('toslice', ('iterp', ('rep', ('any',), 0, None)))
+        for x in [('any',), ('oneof', [gen.A, gen.B])]:
+            for em in gen.EMITTERS:
+                for y in [('just', [gen.B]), ('end',), ('cfail', 3)]:
+                    b = ('then', em(x), y)
+                    for lo, hi in [(0, None), (1, None), (0, 2)]:
+                        pairs.append((('then', ('iterp', ('rep', b, lo, hi)), rest), ('then', ('collect', 'unit', ('rep', b, lo, hi)), rest)))
+                        pairs.append((('then', ('iterp', ('sep', ('any',), b, lo, hi, False, True)), rest),
+                                      ('then', ('collect', 'unit', ('sep', ('any',), b, lo, hi, False, True)), rest)))
         inp = inputs_all(4, [gen.A, gen.B, gen.EA])
         for n, (l, r) in enumerate(pairs):
             for mode in ('parse', 'check'):
@@ -796,6 +809,21 @@ class C17(Prop):
                 lines.append(case_line(f'd{n}p', d, inp, kind=kind))
                 lines.append(case_line(f'd{n}c', erase_deco(d), inp, kind=kind))
                 n += 1
+        # a decorated alternative that fails past its first token next to alternatives that fail earlier / at the same place /
+        # strictly further (a later replacement of the pending error must not keep what the abandoned label attached)
+        further = [('just', [gen.A, gen.EA, gen.B]), ('then', ('just', [gen.A]), ('then', ('oneof', [gen.A, gen.EA]), ('just', [gen.B]))),
+                   ('just', [gen.A, gen.A]), ('just', [gen.B])]
+        inner = [('just', [gen.A, gen.B]), ('then', ('just', [gen.A]), ('just', [gen.B])), ('then', ('any',), ('just', [gen.B, gen.B]))]
+        for w in gen.DECORATIONS:
+            for i_ in inner:
+                for f_ in further:
+                    for d in [('or', w(i_), f_), ('or', f_, w(i_)), ('choices', [w(i_), f_, ('just', [gen.EA])]),
+                              ('then', ('ornot', w(i_)), f_), ('or', w(('label', 1, True, i_)), f_),
+                              ('then', ('collect', 'vec', ('rep', w(i_), 0, None)), f_)]:
+                        kind = 'str' if n % 2 == 0 else 'slice'
+                        lines.append(case_line(f'd{n}p', d, inp, kind=kind))
+                        lines.append(case_line(f'd{n}c', erase_deco(d), inp, kind=kind))
+                        n += 1
         return lines
 
     def group_of(self, line):
@@ -823,6 +851,18 @@ class C17(Prop):
                     return (m['kind'], m.get('site'))
                 return ('R', m['out'], tuple(err_span_of(e) for e in m['errs']))
             pred = shape(a) == shape(b)
+            why = 'decorated and plain differ in acceptance / output / error count / spans'
+            # an as_context entry describes a failure INSIDE the labelled parser: its span runs from that parser's start to the
+            # failure position, so it cannot end before the (expected/found) error it is attached to starts
+            if pred and a['kind'] == 'R' and a.get('out') is None and a['errs']:
+                pe = parse_err(a['errs'][-1])
+                if pe and 'expected' in pe and pe['ctx']:
+                    for c in pe['ctx'].split(','):
+                        cs, _, ce = c.rpartition('@')[2].partition('-')
+                        if int(ce) < pe['start'] or int(cs) > int(ce):
+                            pred = False
+                            why = (f'context {c} attached to an error at {pe["start"]}..{pe["end"]}: the context span does not run from the '
+                                   f'labelled parser\'s start to this failure (stale context of an abandoned alternative?)')
             corr = (ip == mp) and (ic == mc)
             oc = a['kind'] + ('+' if a.get('out') is not None else '-')
             stats['outcomes'][oc] = stats['outcomes'].get(oc, 0) + 1
@@ -831,7 +871,7 @@ class C17(Prop):
             if not pred:
                 stats['pred_fail'] += 1
                 if True:
-                    self.fail(stats, fails, 'pred', line, int(k), f'decorated and plain differ in acceptance / output / error count / spans || decorated: {ip} || plain: {ic}')
+                    self.fail(stats, fails, 'pred', line, int(k), f'{why} || decorated: {ip} || plain: {ic}')
             elif not corr:
                 stats['corr_disagree'] += 1
                 if True:
@@ -981,6 +1021,11 @@ LEFT_REC = [
     ([('or', ('memo', 1, ('then', ('call', 0), ('then', ('just', [43]), ('just', [120])))), ('just', [120]))], ('call', 0)),
     # expr = (expr atom).memoized() | atom   (juxtaposition), collected through map
     ([('or', ('memo', 1, ('map', ('tag', 3), ('then', ('call', 0), ('oneof', [120, 121])))), ('oneof', [120, 121]))], ('call', 0)),
+    # one memoized rule with TWO left-recursive alternatives: the in-progress marker must cut every re-entry, not only the first
+    ([('or', ('memo', 1, ('or', ('then', ('call', 0), ('then', ('just', [43]), ('just', [120]))),
+                               ('then', ('call', 0), ('then', ('just', [45]), ('just', [120]))))), ('just', [120]))], ('call', 0)),
+    ([('or', ('memo', 1, ('choices', [('then', ('call', 0), ('just', [43])), ('then', ('call', 0), ('just', [45])), ('then', ('call', 0), ('just', [121]))])),
+              ('just', [120]))], ('call', 0)),
     # indirect left recursion through a second definition
     ([('or', ('memo', 1, ('then', ('call', 1), ('just', [43]))), ('just', [120])), ('or', ('call', 0), ('just', [121]))], ('call', 0)),
 ]
@@ -1028,7 +1073,7 @@ class C11(Prop):
             lines.append(case_line(f'm{n}c', main, inp, defs=[erase_memo(d)]))
             n += 1
         # left recursion: must terminate (no plain counterpart: the unmemoized grammar overflows the stack)
-        linp = inputs_all(6 if tier == 'quick' else 8, [120, 43, 121])
+        linp = inputs_all(4 if tier == 'quick' else 6, [120, 43, 121, 45])
         for i, (defs, main) in enumerate(LEFT_REC):
             lines.append(case_line(f'l{i}p', main, linp, defs=defs, fuel=60))
         # address collisions (known findings D9 / D10)
@@ -1042,6 +1087,27 @@ class C11(Prop):
     def group_of(self, line):
         return line.split(' ', 1)[0][:-1]
 
+    def custom_run(self, lines, tier, seed, jobs):
+        import vcheck
+        # the left-recursive families run apart, one input per case line, under a short watchdog: a parser that does not
+        # terminate must cost seconds, not the whole budget
+        lrec = [l for l in lines if l.startswith('l')]
+        rest = [l for l in lines if not l.startswith('l')]
+        tot, fails = vcheck.run_cases(self.name, rest, jobs=jobs, timeout=900 if tier == 'quick' else 3600)
+        single = []
+        for l in lrec:
+            head, _, spec = l.partition(' I ')
+            cid = head.split(' ', 1)[0]
+            for k, toks in enumerate(expand_inputs(spec.split())):
+                single.append(head.replace(cid, f'{cid[:-1]}i{k}p', 1) + ' I ' + inputs_lit(toks))
+        t2, f2 = vcheck.run_cases(self.name, single, jobs=jobs, timeout=10, per_case=True)
+        for k_ in ('pairs', 'corr_disagree', 'pred_fail', 'nontrivial', 'impl_s', 'model_s'):
+            tot[k_] += t2[k_]
+        for k_, v in t2['outcomes'].items():
+            tot['outcomes'][k_] = tot['outcomes'].get(k_, 0) + v
+        # a watchdog kill shows as a crashed worker: the per-case predicate failure is the report, not the crash
+        return tot, fails + f2
+
     def check_chunk(self, by_id, impl, model, stats, fails):
         for key, mo in model.items():
             if key == '__bad__' or not key.rpartition('.')[0].endswith('p'):
@@ -1052,7 +1118,11 @@ class C11(Prop):
             mp = mo.get('M')
             stats['pairs'] += 1
             if ip is None:
-                fails.append(('missing', line, int(k), 'no implementation observation (hang / crash?)'))
+                if cid.startswith('l'):
+                    stats['pred_fail'] += 1
+                    self.fail(stats, fails, 'pred', line, int(k), 'left-recursive memoized grammar did not return (no observation: hang, runaway recursion or crash)')
+                else:
+                    fails.append(('missing', line, int(k), 'no implementation observation (hang / crash?)'))
                 continue
             a = parse_M(ip)
             oc = a['kind'] + ('+' if a.get('out') is not None else '-')
